@@ -657,16 +657,14 @@ def register_parse(R):
 
     def leading_count_name():
         """the local in which the loop remembers how many comment lines came in front of the first row: the name that is assigned `len(<the comment
-        list>)` INSIDE the loop (read from the source as it is now, so that renaming it keeps the proof attached); None when there is no such local"""
+        list>)` INSIDE the loop (read from the source as it is now, so that the invariant does not spell the name); None when there is no such local"""
         import ast as _ast
-        import inspect
-        import textwrap
 
-        import swcgeom.core.swc_utils.io as io_mod
+        from pyvc import extract
 
         try:
-            fn = _ast.parse(textwrap.dedent(inspect.getsource(io_mod.parse_swc))).body[0]
-        except (OSError, SyntaxError, AttributeError):
+            fn = extract.find(f"{IO}:parse_swc")[0]  # the AST the symbolic executor runs (locals re-anchored by pyvc/align.py after a mere rename)
+        except KeyError:
             return None
         loops_ = [n for n in _ast.walk(fn) if isinstance(n, _ast.For)]
         for node in (_ast.walk(loops_[0]) if loops_ else ()):
